@@ -68,6 +68,12 @@ def terms():
     DECL['cN'] = NatType
     ts += [Lambda(xf, Lambda(hh, And(hh(xf), xf(cN)))), Lambda(hh, Lambda(xf, And(hh(xf), xf(cN)))), Forall(F, Exists(G2, Eq(G2(F), F(cN)))),
            Lambda(xf, Lambda(hh, Lambda(z, And(hh(xf), xf(z + cN))))), Exists(xf, Forall(hh, Implies(hh(xf), xf(Nat(0))))), Lambda(F, Lambda(G2, Lambda(z, Eq(G2(F) + z, F(z)))))]
+    # a declared free variable under a binder of the same name and another type (never produced by the parser, but a legal term)
+    zero = Nat(0)
+    ab = lambda nm, v, body: Abs(nm, v.T, body.abstract_over(v))
+    hb, hn = Var('hb_', BoolType), Var('hn_', NatType)
+    ts += [ab('x', hb, Implies(hb, Eq(x, zero))), ab('x', hn, ab('x', hb, And(hb, Eq(hn + x, y)))),
+           Forall(p, Eq(x, x)).fun(ab('y', hb, Implies(hb, y < x))), ab('p', hn, And(p, Eq(hn, x)))]
     # schematic variables (declared and undeclared alike must get one type for all occurrences)
     from kernel.term import SVar
     sp, sn = SVar('sp', BoolType), SVar('sn', NatType)
@@ -274,6 +280,11 @@ def ill_skeletons():
         extra.append(conj(Comb(P, mkv()), mkv()))
         extra.append(Comb(Comb(Const('equals', None), Comb(Var('f', TFun(NatType, NatType)), mkv())), Comb(mkv(), zero)))
         extra.append(Abs('z', None, conj(Comb(Comb(Const('equals', None), mkv()), Bound(0)), Comb(Comb(Const('conj', None), mkv()), Bound(0)))))
+    # under-determined: undeclared schematic variables whose type nothing fixes -- must be reported, not returned with internal type variables
+    imp = lambda a, b: Comb(Comb(Const('implies', None), a), b)
+    pB = Var('p', BoolType)
+    extra += [imp(Comb(SVar('F', None), SVar('X', None)), pB), imp(Comb(Comb(SVar('G', None), SVar('Y', None)), zero), pB), Abs('n', NatType, Comb(Comb(SVar('H', None), Bound(0)), SVar('Z', None))),
+              Comb(Comb(Const('equals', None), SVar('A', None)), SVar('A', None)), imp(Comb(Var('k', None), Var('l', None)), pB)]
     return extra + [Comb(x(), x()), Abs('z', None, Comb(Bound(0), Bound(0))), Comb(f, p), Comb(Comb(Const('plus', None), p), Var('y', NatType)),
             Comb(Var('x', NatType), Var('x', BoolType)), Comb(Comb(Const('equals', None), Var('w', None)), Comb(Var('w', None), Var('y', NatType))), Comb(Const('Suc', None), p),
             Comb(Comb(Const('equals', None), f), p), Comb(Abs('z', NatType, Bound(0)), p)]
@@ -393,6 +404,9 @@ def run_ill(u, out):
             elif t.is_abs():
                 coll(t.body)
         coll(res)
+        if any(mentions_internal(T) for T in all_types(res)):
+            out['cex'].append({'kind': 'infer-internal', 'part': 'ill', 'i': i, 'detail': 'skeleton %r is inferred as %r, which still contains internal type variables' % (sk, res)})
+            continue
         clash = sorted(k for k, v in vt.items() if len(v) > 1)
         if clash:
             out['cex'].append({'kind': 'infer-variable-two-types', 'part': 'ill', 'i': i,
